@@ -192,9 +192,12 @@ def reserved_set(ctx):
 
 
 def check_reserved(ctx):
-    reserved, nw = reserved_set(ctx)
-    ctx.setcount('reserved_words', len(reserved))
+    """every identifier-shaped word that the ordered lexer turns into a keyword the grammar does not accept as `id` must come out of the identifier printer in a
+    form that lexes back to ID (the printer is interpreted, see C04.identifier_printer)"""
+    from . import C04 as _C04
+    enc, encfn = _C04.identifier_printer(ctx)
     nkw = 0
+    cache = {}
     for d in DIALECTS:
         g = load_dialect(ctx.src, d)
         lex = g.lexer
@@ -205,7 +208,7 @@ def check_reserved(ctx):
                 continue
             words, _ = language(r.pattern, lex.reflags)
             for w in words:
-                if not w or not re.fullmatch(nw, w):
+                if not w or not re.fullmatch(r'[A-Za-z_][A-Za-z_0-9]*', w):
                     continue
                 nkw += 1
                 toks = master.types(w)
@@ -213,11 +216,15 @@ def check_reserved(ctx):
                     continue            # the word lexes as an identifier (or the grammar accepts the keyword as id)
                 if toks != [r.name]:
                     continue
-                ctx.ob('C01.reserved-words', f'{d}:{r.name}:{w.lower()}', w.upper() in reserved,
-                       f'{d}: the word `{w.lower()}` lexes as keyword {r.name} (not accepted as an identifier), but Identifier.parts_to_str '
-                       f'does not treat it as reserved: an identifier `{w.lower()}` is printed unquoted and the printed text no longer '
-                       f'parses to the same tree', file=IDENT, witness=f'select `{w.lower()}` from t')
+                if w.lower() not in cache:
+                    cache[w.lower()] = enc([w.lower()])
+                text = cache[w.lower()]
+                ctx.ob('C01.reserved-words', f'{d}:{r.name}:{w.lower()}', master.types(text) == ['ID'],
+                       f'{d}: the word `{w.lower()}` lexes as keyword {r.name} (not accepted as an identifier), but Identifier.parts_to_str prints an identifier of '
+                       f'that name as `{text}`, which lexes to {master.types(text)}: the printed text no longer parses to the same tree', file=IDENT,
+                       witness=f'select `{w.lower()}` from t')
     ctx.setcount('keyword_words', nkw)
+    ctx.setcount('reserved_words', len(cache))
 
 
 # ---- printers cover what the tree shows ------------------------------------------------------------------------------
